@@ -197,19 +197,21 @@ def reverse_jobs(rnd, n, schedulers=('default', 'legacy'), **job_kw):
     return jobs
 
 
-def catalogue_model_runs(d, tier, liveness_for=('diamond_j-1_ok', 'nested_join_inner_uncreated_err', 'diamond_j1_ok')):
-    """Exhaustive TLC runs of MistralEngine on every catalogue shape (all delivery orders of messages,
-    post-commit operations and job sub-steps), liveness (Terminates under weak fairness) on a few."""
+def catalogue_model_runs(d, tier, liveness_for=('diamond_j-1_ok', 'nested_join_inner_uncreated_err', 'diamond_j1_ok'),
+                         ops=0, dups=0, kinds=('pause', 'resume', 'stop'), only=None, tag=''):
+    """Exhaustive TLC runs of MistralEngine on catalogue shapes (all delivery orders of messages,
+    post-commit operations and job sub-steps; with `ops` operator commands of the given kinds issued at any
+    point and `dups` redeliveries of any delivered message), liveness (Terminates under weak fairness) on a few."""
     import concurrent.futures as cf
     from harness import engmodel
-    shapes = gen.catalogue()
+    shapes = [x for x in gen.catalogue() if only is None or x[0] in only]
     out = []
 
     def one(item):
         nm, P = item
-        r = engmodel.model_check(d, nm, P.abstract(), liveness=False)
-        res = [('MistralEngine/%s' % nm, r)]
-        if nm in liveness_for:
+        r = engmodel.model_check(d, nm + tag, P.abstract(), liveness=False, ops=ops, dups=dups, kinds=kinds)
+        res = [('MistralEngine/%s%s ops=%d%s dups=%d' % (nm, tag, ops, '(%s)' % ','.join(kinds) if ops else '', dups), r)]
+        if nm in liveness_for and not ops and not dups:
             res.append(('MistralEngine/%s/liveness' % nm, engmodel.model_check(d, nm + '_live', P.abstract(), liveness=True)))
         return res
 
